@@ -467,6 +467,28 @@ def rule_r3(ctx):
                         rr.ok(what, sample={"rule": "C10-R3", "branch": f"if {pname} is None", "value": ast.unparse(st.value), "verdict": f"new {r.name} per call"})
                     else:
                         rr.fail(f"C10-R3|convert_code_string|none-branch-{pname}", f"{fi.where()} line {st.lineno}: when no options are passed `{pname}` becomes `{ast.unparse(st.value)}` ({why}), not a new options object: option changes made elsewhere leak into calls that pass no options", where=fi.where(), what=what)
+    # the same decision written as a conditional expression: X = <new object> if p is None else p
+    for n in ast.walk(fi.node):
+        if found:
+            break
+        if isinstance(n, ast.Assign) and isinstance(n.value, ast.IfExp):
+            t = n.value.test
+            if isinstance(t, ast.Compare) and len(t.ops) == 1 and isinstance(t.ops[0], (ast.Is, ast.IsNot)) and isinstance(t.comparators[0], ast.Constant) and t.comparators[0].value is None and isinstance(t.left, ast.Name):
+                pname = t.left.id
+                if pname not in {a.arg for a in fi.node.args.args + fi.node.args.kwonlyargs}:
+                    continue
+                fresh_arm, other_arm = (n.value.body, n.value.orelse) if isinstance(t.ops[0], ast.Is) else (n.value.orelse, n.value.body)
+                if not (isinstance(other_arm, ast.Name) and other_arm.id == pname):
+                    continue
+                found = True
+                rr.instances += 1
+                what = f"none-branch|{pname}"
+                c, why = eff.classify_expr(fi, fresh_arm, {k: v for k, v in loc.items() if k != pname})
+                r = prog.resolve_expr_static(mi, fresh_arm.func) if isinstance(fresh_arm, ast.Call) and isinstance(fresh_arm.func, (ast.Name, ast.Attribute)) else None
+                if c == "fresh" and isinstance(r, ClassInfo) and not fresh_arm.args and not fresh_arm.keywords:
+                    rr.ok(what, sample={"rule": "C10-R3", "branch": f"... if {pname} is None else {pname}", "value": ast.unparse(fresh_arm), "verdict": f"new {r.name} per call"})
+                else:
+                    rr.fail(f"C10-R3|convert_code_string|none-branch-{pname}", f"{fi.where()} line {n.lineno}: when no options are passed `{pname}` becomes `{ast.unparse(fresh_arm)}` ({why}), not a new options object: option changes made elsewhere leak into calls that pass no options", where=fi.where(), what=what)
     if not found:
         rr.instances += 1
         # configs used without a None test?
